@@ -888,7 +888,7 @@ class IncidenceRateRatio:
         vals = set(df[exposure].dropna().unique())
         vals.remove(self.reference)
         self._c = df.loc[(df[exposure] == self.reference) & (df[outcome] == 1)].shape[0]
-        self._c_time = df.loc[df[exposure] == self.reference][time].sum()
+        self._c_time = df.loc[(df[exposure] == self.reference) & (df[outcome].notnull())][time].sum()
         self._labels.append('Ref:'+str(self.reference))
         ri, lr, ur, sd, *_ = incidence_rate_ci(events=self._c, time=self._c_time, alpha=self.alpha)
         self.incidence_rate.append(ri)
@@ -905,7 +905,7 @@ class IncidenceRateRatio:
             self._labels.append(str(i))
             a = df.loc[(df[exposure] == i) & (df[outcome] == 1)].shape[0]
             self._a_list.append(a)
-            a_t = df.loc[df[exposure] == i][time].sum()
+            a_t = df.loc[(df[exposure] == i) & (df[outcome].notnull())][time].sum()
             self._a_time_list.append(a_t)
             ri, lr, ur, sd, *_ = incidence_rate_ci(events=a, time=a_t, alpha=self.alpha)
             self.incidence_rate.append(ri)
@@ -1100,7 +1100,7 @@ class IncidenceRateDifference:
         vals = set(df[exposure].dropna().unique())
         vals.remove(self.reference)
         self._c = df.loc[(df[exposure] == self.reference) & (df[outcome] == 1)].shape[0]
-        self._c_time = df.loc[df[exposure] == self.reference][time].sum()
+        self._c_time = df.loc[(df[exposure] == self.reference) & (df[outcome].notnull())][time].sum()
         self._labels.append('Ref:'+str(self.reference))
         ri, lr, ur, sd, *_ = incidence_rate_ci(events=self._c, time=self._c_time, alpha=self.alpha)
         self.incidence_rate.append(ri)
@@ -1117,7 +1117,7 @@ class IncidenceRateDifference:
             self._labels.append(str(i))
             a = df.loc[(df[exposure] == i) & (df[outcome] == 1)].shape[0]
             self._a_list.append(a)
-            a_t = df.loc[df[exposure] == i][time].sum()
+            a_t = df.loc[(df[exposure] == i) & (df[outcome].notnull())][time].sum()
             self._a_time_list.append(a_t)
             ri, lr, ur, sd, *_ = incidence_rate_ci(events=a, time=a_t, alpha=self.alpha)
             self.incidence_rate.append(ri)
